@@ -127,6 +127,20 @@ func schedScenarios() []scenario {
 			return built{threads: []thr{{func() { e.s.OpSwap(e.reqs(p1), o1) }, p1}, {func() { e.s.OpSwap(e.reqs(p2), o2) }, p2}},
 				watch: append(append([]*HProof{}, p1...), p2...), notify: nil, restore: append(append([]ReqOut{}, o1...), o2...)}
 		}},
+		// the same blinded message B_ in two overlapping swaps under DIFFERENT amounts (two devices sharing a seed, or a
+		// client that re-uses B_): the two signatures are made with different keys; whichever is stored must be stored
+		// whole - C_, amount, keyset AND the DLEQ proof (e, s) of the same signature (seeded change C10-7: an upsert that
+		// left the earlier signature's e, s in the row). Follow-up: restore, DLEQ of what comes back verified.
+		{"swap||swap-shared-B_-other-amount", [][]string{nil}, func(e *schedEnv) built {
+			p1, p2 := e.fund(12), e.fund(10)
+			o1, o2 := e.g.outputs(12, e.env.ActiveKeysetId()), e.g.outputs(10, e.env.ActiveKeysetId())
+			if len(o1) == 2 && len(o2) == 2 && o1[0].BM.Amount == 4 && o2[0].BM.Amount == 2 {
+				o2[0].BM.B_ = o1[0].BM.B_
+				o2[0].O = nil
+			}
+			return built{threads: []thr{{func() { e.s.OpSwap(e.reqs(p1), o1) }, p1}, {func() { e.s.OpSwap(e.reqs(p2), o2) }, p2}},
+				watch: append(append([]*HProof{}, p1...), p2...), notify: nil, restore: append(append([]ReqOut{}, o1...), o2...)}
+		}},
 		{"swap||melt", paySc, func(e *schedEnv) built {
 			p := e.fund(8)
 			q := e.meltQuote(8)
@@ -341,6 +355,12 @@ func (e *schedEnv) runSchedule(sc scenario, script []string, choose func(i int, 
 			if f.Prop == "C01" || f.Prop == "C03" {
 				c.MonitorFail(f.Prop, f.Prop+"/sched/"+sc.name+"/"+strings.TrimPrefix(f.Signature, f.Prop+"/"), f.What, f.Replay)
 			}
+		}
+	}
+	// valid under ANY schedule: a signature the mint hands back on restore carries the DLEQ proof of that very signature
+	for _, f := range captured {
+		if f.Prop == "C10" && strings.HasPrefix(f.Signature, "C10/restore-dleq") {
+			c.MonitorFail("C10", "C10/sched/"+sc.name+"/"+strings.TrimPrefix(f.Signature, "C10/"), fmt.Sprintf("scenario %s: %s", sc.name, f.What), f.Replay)
 		}
 	}
 	for _, f := range captured {
